@@ -50,6 +50,8 @@ static bool getSummary(const FunctionDecl *FD, Summary &S) {
   if (ends("dd_edge::set_and_link")) { return true; }
   if (ends("dd_edge::xferNode")) { S.params[0] = R_OUT_OWNED; return true; }
   if (ends("dd_edge::getNode")) { S.ret = RET_BORROWED; return true; }
+  // relation-node abstraction: both return a child pointer of the node being read (unp->down(i) / getDownPtr): borrowed
+  if (ends("rel_node::getDiagonal") || ends("rel_node_from_dd::getDiagonal")) { S.ret = RET_BORROWED; return true; }
   if (ends("unpacked_node::down")) { S.ret = RET_UNKNOWN; return true; }
   if (ends("ct_item::getN")) { S.ret = RET_BORROWED; return true; }
   if (ends("terminal::getHandle") || ends("terminal::getIntegerHandle") || ends("terminal::getRealHandle") ||
@@ -112,6 +114,7 @@ public:
   unsigned nStates = 0, nTracked = 0, nSuppressed = 0, nEvents = 0;
   bool giveUp = false, partial = false;
   std::set<const Stmt *> countedEvents;
+  std::set<std::string> unknownRet;   // callees whose handle result is treated as unknown (review list)
   void event(const Stmt *S) { if (countedEvents.insert(S).second) nEvents++; }
 
   unsigned lineOf(const Stmt *S) { return msa::lineOf(SM, S->getBeginLoc()); }
@@ -162,6 +165,12 @@ public:
     if (it != S.tmp.end()) return it->second;
     if (auto *MC = dyn_cast<CXXMemberCallExpr>(E)) if (const CXXMethodDecl *MD = MC->getMethodDecl()) if (MD->getNameAsString() == "down") {
       if (const VarDecl *NV = nodeVarOf(MC->getImplicitObjectArgument())) { auto k = S.nodeKind.find(NV); if (k != S.nodeKind.end() && (k->second == 1 || k->second == 3)) return S.fresh(B); }
+      // a child pointer read through a const node (const unpacked_node& / const unpacked_node* parameter): the node keeps its reference
+      if (MD->isConst() && qualName(MD->getParent()) == "MEDDLY::unpacked_node") {
+        QualType OT = MC->getImplicitObjectArgument()->getType();
+        if (OT->isPointerType()) OT = OT->getPointeeType();
+        if (OT.isConstQualified()) return S.fresh(B);
+      }
     }
     return S.fresh(U);
   }
@@ -291,7 +300,7 @@ public:
         case RET_OWNED: S.tmp[CE] = S.fresh(O); break;
         case RET_BORROWED: S.tmp[CE] = S.fresh(B); break;
         case RET_TERMINAL: S.tmp[CE] = S.fresh(T); break;
-        default: S.tmp[CE] = S.fresh(U); break;
+        default: S.tmp[CE] = S.fresh(U); unknownRet.insert(Callee->getQualifiedNameAsString()); break;
       }
     }
   }
@@ -514,6 +523,7 @@ Value runOwn(ASTContext &Ctx) {
     f["suppressed"] = (int64_t)A.nSuppressed;
     f["gave_up"] = A.giveUp;
     f["partial"] = A.partial;
+    { Array ur; for (auto &u : A.unknownRet) ur.push_back(u); f["unknown_ret"] = std::move(ur); }
     Array ds;
     for (auto &d : A.diags) {
       Object o;
